@@ -5,7 +5,7 @@
    ------------------------------------------------------  ----------------------------------------------
    content of report.js / report.xml                       file  (FJson prefix json | FXml tree): the text layer is modelled
    json_.save_report_into_file                             json_save_file      (json.dumps never fails on str data: ensure_ascii)
-   json_.load_report_from_file                             json_load_file      (prefix stripped, json.loads, report_version checks)
+   json_.load_report_from_file                             json_load_file      (prefix stripped, json.loads = json_norm, report_version checks)
    xml.save_report_into_file (indent, tostring, write)     xml_save_file       (TypeError while building the tree; UnicodeEncodeError
                                                                                 when the text holds a lone surrogate)
    xml.load_report_from_file (ET.parse, root/version)      xml_load_file       (ParseError -> ReportLoadingError)
@@ -39,7 +39,8 @@ Definition json_save_file (now : Z) (r : report) : res file := Ok (FJson true (j
 Definition json_load_file (f : file) : res report :=
   match f with
   | FXml _ => Err ReportLoadingError                           (* json.loads raises ValueError on XML text *)
-  | FJson _ j =>
+  | FJson _ j0 =>
+      let j := json_norm j0 in
       match j with
       | JObj _ =>
           match jget_or_null K_report_version j with
@@ -138,6 +139,37 @@ Definition xml_safeb (r : report) : bool :=
   text_safe (rp_title r) && forallb (fun kv => attr_safe (fst kv) && text_safe (snd kv)) (rp_info r) &&
   is_some (rp_start r) && oresult_safe (rp_session_setup r) && oresult_safe (rp_session_teardown r) &&
   forallb suite_safe (rp_suites r).
+
+(* ---------------- which reports the JSON text layer carries unchanged: no string holds a high surrogate immediately followed
+   by a low surrogate (two separate code points in a Python str) ---------------- *)
+Definition opt_all (p : str -> bool) (o : option str) : bool := match o with Some s => p s | None => true end.
+Definition log_all (p : str -> bool) (l : steplog) : bool :=
+  match l with
+  | LLog level message _ => p level && p message
+  | LCheck d _ details _ => p d && opt_all p details
+  | LAttachment d f _ _ => p d && p f
+  | LUrl d u _ => p d && p u
+  end.
+Definition step_all p (s : step) : bool := p (st_description s) && forallb (log_all p) (st_logs s).
+Definition result_all p (r : result) : bool :=
+  opt_all p (r_status r) && opt_all p (r_status_details r) && forallb (step_all p) (r_steps r).
+Definition oresult_all p (o : option result) : bool := match o with Some r => result_all p r | None => true end.
+Definition meta_all p (m : meta) : bool :=
+  p (m_name m) && p (m_description m) && forallb p (m_tags m) &&
+  forallb (fun kv => p (fst kv) && p (snd kv)) (m_properties m) &&
+  forallb (fun l => p (fst l) && opt_all p (snd l)) (m_links m).
+Definition test_all p (t : test_result) : bool := meta_all p (t_meta t) && result_all p (t_result t).
+Fixpoint suite_all p (s : suite_result) : bool :=
+  match s with
+  | SuiteResult m _ _ su td tests subs =>
+      meta_all p m && oresult_all p su && oresult_all p td && forallb (test_all p) tests && forallb (suite_all p) subs
+  end.
+Definition report_all p (r : report) : bool :=
+  p (rp_title r) && forallb (fun kv => p (fst kv) && p (snd kv)) (rp_info r) &&
+  oresult_all p (rp_session_setup r) && oresult_all p (rp_session_teardown r) && forallb (suite_all p) (rp_suites r).
+Definition json_safeb (r : report) : bool := report_all pairfree r.
+Definition json_safe (r : report) : Prop := json_safeb r = true /\ unique_keys r.
+Definition codec_json_ok (tc : textcodec) : Prop := forall z, pairfree (tfmt tc z) = true.
 
 (* the codec must produce attribute values the XML text layer can carry *)
 Definition codec_xml_ok (tc : textcodec) : Prop :=
